@@ -907,7 +907,7 @@ def sym_programs(ctx, count):
             a = rng.choice(pool)
             op = "einsum2" if focus and step == 0 else rng.choice(["binary", "binary", "scalar", "transpose", "roll", "stack", "sum",
                              "einsum", "einsum2", "bcast", "where", "neg", "pad", "pad", "stride", "concat",
-                             "expand", "bcast_to"])
+                             "expand", "bcast_to", "bmatmul", "bmatmul"])
             try:
                 if op == "binary":
                     bshape = tuple(d if rng.random() < 0.7 else rng.choice([1, 1, one_sym]) for d in a.shape)
@@ -954,6 +954,19 @@ def sym_programs(ctx, count):
                         e = pt.einsum("ij,jk->k", a, leaf((a.shape[1], rng.choice(dims))))
                     else:
                         e = pt.einsum("ij,j,i->", a, leaf((a.shape[1],)), leaf((a.shape[0],)))
+                elif op == "bmatmul":
+                    # stacked matrix products of MIXED RANK: the batch axes align from the right
+                    if a.ndim < 2:
+                        continue
+                    d = rng.choice(dims)
+                    which = rng.randrange(3)
+                    if which == 0:
+                        e = a @ leaf((a.shape[-1], d))
+                    elif which == 1:
+                        d0 = a.shape[0] if rng.random() < 0.6 else rng.choice(dims)
+                        e = leaf((d0, *a.shape)) @ leaf((*a.shape[:-2], a.shape[-1], d))
+                    else:
+                        e = leaf((*a.shape[:-2][-1:], d, a.shape[-2])) @ a
                 elif op == "bcast":
                     e = a + pt.zeros(a.shape, dtype=np.float64)
                 elif op == "where":
